@@ -307,8 +307,6 @@ Qed.
 (* ------------------------------------------------------------------------------------------ *)
 (** * values before tables *)
 
-Definition strict_prefix (p q : path) : Prop := exists k r, q = p ++ k :: r.
-
 Lemma strict_prefix_neq p q : strict_prefix p q -> q <> p.
 Proof.
   intros (k & r & ->) E. apply (f_equal (@length bytes)) in E. rewrite app_length in E. cbn [length] in E. lia.
